@@ -144,7 +144,6 @@ Hypothesis Hanti : forall d p, Pos (S d) p -> Pos d p.
 Hypothesis Hstep : forall d p m q, Pos (S d) p -> is_over p = false -> okm m -> try_move basis p m = Some q -> Pos d q.
 Hypothesis Hpass : forall d p, Pos (S d) p -> is_over p = false -> Pos d (pass_move p).
 Hypothesis Hlive : forall d p, Pos (S d) p -> is_over p = false -> exists m q, In m (all_moves p) /\ try_move basis p m = Some q.
-Hypothesis Hlen : forall d p, Pos (S d) p -> is_over p = false -> Z.of_nat (length (all_moves p)) <= 690.
 Hypothesis Hbound : forall d p, Pos d p -> okv (eval p).
 
 Lemma Pos_le d p : Pos d p -> forall d', (d' <= d)%nat -> Pos d' p.
@@ -177,8 +176,8 @@ Lemma gen_stepj f g seen s : GJ basis p seen g -> SJ s -> len + 6 - g_i g < Z.of
   stepj basis p seen g (mg_next false basis cfg f s g).
 Proof. intros G (_ & R & _) F. exact (mg_next_stepj basis cfg p f g seen s G R F). Qed.
 
-Lemma f700 g seen : GJ basis p seen g -> len + 6 - g_i g < Z.of_nat 700.
-Proof. intros G. pose proof (gj_i0 _ _ _ _ G). pose proof (Hlen d0 p Hp Hover). unfold len. lia. Qed.
+Lemma f700 g seen : GJ basis p seen g -> len + 6 - g_i g < Z.of_nat (gfuel g).
+Proof. intros G. exact (gfuel_okj basis p seen g G). Qed.
 
 Lemma not_all_seen_nil : ~ (forall m q, In m (all_moves p) -> try_move basis p m = Some q -> In q (@nil position)).
 Proof. intros H. destruct (Hlive d0 p Hp Hover) as (m & q & Hm & T). exact (H m q Hm T). Qed.
@@ -198,8 +197,8 @@ Proof.
     pose proof (gen_stepj 0 g seen s G HS HF) as ST. cbn [mg_next stepj] in ST. destruct ST as (_ & ST).
     apply HSEEN. intros ->. exact (not_all_seen_nil ST). }
   cbn [zw_loop].
-  pose proof (gen_stepj 700 g seen s G HS (f700 g seen G)) as ST.
-  destruct (mg_next false basis cfg 700 s g) as [g' [[m q]|]]; cbn [stepj] in ST.
+  pose proof (gen_stepj (gfuel g) g seen s G HS (f700 g seen G)) as ST.
+  destruct (mg_next false basis cfg (gfuel g) s g) as [g' [[m q]|]]; cbn [stepj] in ST.
   2:{ refine (conj HS (conj HB (conj _ _))); [discriminate|]. intros _ _. destruct ST as (_ & ST).
       apply HSEEN. intros ->. exact (not_all_seen_nil ST). }
   destruct ST as (Hm & HT & G' & HLT & _).
@@ -235,8 +234,8 @@ Proof.
   destruct ((a <? - v) && (3 <=? (if a <? - v then cuts + 1 else cuts))) eqn:EC.
   { apply andb_true_iff in EC. destruct EC as (EC & _). apply Z.ltb_lt in EC.
     refine (conj (SJ_bump _ _ HS1) (conj (ex_intro _ seen G) _)). intros _. destruct minmax. lia. }
-  pose proof (gen_stepj 700 g seen s1 G HS1 (f700 g seen G)) as ST.
-  destruct (mg_next false basis cfg 700 s1 g) as [g' [[m' c']|]]; cbn [stepj] in ST.
+  pose proof (gen_stepj (gfuel g) g seen s1 G HS1 (f700 g seen G)) as ST.
+  destruct (mg_next false basis cfg (gfuel g) s1 g) as [g' [[m' c']|]]; cbn [stepj] in ST.
   - destruct ST as (Hm & HT & G' & _).
     apply (IHn s1 g' c' (i + 1) _ (c' :: seen) HS1 G'). apply (kid m' c' (depth - 1 - 2) Hm HT). lia.
   - destruct ST as (G' & _). refine (conj HS1 (conj (ex_intro _ seen G') _)). discriminate.
@@ -249,9 +248,9 @@ Lemma zw_tail_bnd s g seen ply depth a cut : SJ s -> GJ basis p seen g -> MinEva
 Proof.
   intros HS G Ha Hd. unfold zw_tail.
   pose proof (GJ_reset basis p seen g G) as G0.
-  pose proof (zw_loop_bnd ply depth a cut Ha Hd 700 s (set_i g 0) 0 (firstn 1 (znth (fpv s) ply [])) [] HS G0
+  pose proof (zw_loop_bnd ply depth a cut Ha Hd (gfuel (set_i g 0)) s (set_i g 0) 0 (firstn 1 (znth (fpv s) ply [])) [] HS G0
                 (Forall_firstn _ _ _ (okl_frameJ s ply HS)) (f700 _ _ G0) ltac:(intros F; contradiction)) as L.
-  destruct (zw_loop false basis cfg k rec 700 ply depth a cut s (set_i g 0) 0 (firstn 1 (znth (fpv s) ply []))) as [[[s2 best] didcut] ab].
+  destruct (zw_loop false basis cfg k rec (gfuel (set_i g 0)) ply depth a cut s (set_i g 0) 0 (firstn 1 (znth (fpv s) ply []))) as [[[s2 best] didcut] ab].
   destruct L as (HS2 & HB2 & L1 & L2). destruct ab; cbn [fst snd].
   - split; [exact HS2|]. split; [constructor|apply okv0].
   - split; [apply SJ_zw_store; [exact HS2|exact HB2|exact Ha|apply L2; reflexivity]|]. split; [exact HB2|].
@@ -264,8 +263,8 @@ Lemma zw_mc_bnd s g seen ply depth a cut : SJ s -> GJ basis p seen g -> MinEval 
 Proof.
   intros HS G Ha Hd. unfold zw_mc. destruct (c_multicut cfg && cut && (3 <? depth)); [|apply (zw_tail_bnd s g seen); assumption].
   set (s1 := bump s (st_add 0 0 0 0 0 0 0 0 0 1 0)). assert (HS1 : SJ s1) by (apply SJ_bump; exact HS).
-  pose proof (gen_stepj 700 g seen s1 G HS1 (f700 g seen G)) as ST.
-  destruct (mg_next false basis cfg 700 s1 g) as [g1 [[m child0]|]]; cbn [stepj] in ST.
+  pose proof (gen_stepj (gfuel g) g seen s1 G HS1 (f700 g seen G)) as ST.
+  destruct (mg_next false basis cfg (gfuel g) s1 g) as [g1 [[m child0]|]]; cbn [stepj] in ST.
   - destruct ST as (Hm & HT & G1 & _).
     pose proof (mc_loop_bnd ply depth a cut m Ha Hd 8 s1 g1 child0 0 0 (child0 :: seen) HS1 G1 (kid m child0 (depth - 1 - 2) Hm HT ltac:(lia))) as L.
     destruct (mc_loop false basis cfg rec 8 ply depth a cut m s1 g1 child0 0 0) as [[s2 g2] mccut].
@@ -328,8 +327,8 @@ Proof.
     pose proof (gen_stepj 0 g seen s G HS HF) as ST. cbn [mg_next stepj] in ST. destruct ST as (_ & ST).
     assert (MinEval <= a) by (apply HSEEN; intros ->; exact (not_all_seen_nil ST)). unfold okv. repeat split; try assumption; lia. }
   cbn [pv_loop].
-  pose proof (gen_stepj 700 g seen s G HS (f700 g seen G)) as ST.
-  destruct (mg_next false basis cfg 700 s g) as [g' [[m q]|]]; cbn [stepj] in ST.
+  pose proof (gen_stepj (gfuel g) g seen s G HS (f700 g seen G)) as ST.
+  destruct (mg_next false basis cfg (gfuel g) s g) as [g' [[m q]|]]; cbn [stepj] in ST.
   2:{ refine (conj HS (conj HB (conj _ _))); [discriminate|]. intros _. destruct ST as (_ & ST).
       assert (MinEval <= a) by (apply HSEEN; intros ->; exact (not_all_seen_nil ST)). unfold okv. repeat split; try assumption; lia. }
   destruct ST as (Hm & HT & G' & HLT & _).
@@ -366,9 +365,9 @@ Proof.
   set (s2 := set_fpv s ply (set_prefix (znth (fpv s) ply []) best0)).
   assert (HS2 : SJ s2) by (apply SJ_set_fpv; [assumption|apply okl_set_prefix; [apply okl_frameJ; assumption|assumption]]).
   pose proof (gj_new s te pv ply depth HS Hpv) as G0.
-  pose proof (pv_loop_bnd ply depth a b Hb Hd 700 s2 (new_gen s te pv ply depth p) 0 best0 a false [] HS2 G0 HB0 (f700 _ _ G0) Hab
+  pose proof (pv_loop_bnd ply depth a b Hb Hd (gfuel (new_gen s te pv ply depth p)) s2 (new_gen s te pv ply depth p) 0 best0 a false [] HS2 G0 HB0 (f700 _ _ G0) Hab
                 ltac:(intros F; contradiction) ltac:(discriminate) ltac:(reflexivity)) as L.
-  destruct (pv_loop false basis cfg k rec 700 ply depth b s2 (new_gen s te pv ply depth p) 0 best0 a false) as [[[[s3 best] a'] improved] ab].
+  destruct (pv_loop false basis cfg k rec (gfuel (new_gen s te pv ply depth p)) ply depth b s2 (new_gen s te pv ply depth p) 0 best0 a false) as [[[[s3 best] a'] improved] ab].
   destruct L as (HS3 & HB3 & L1 & L2). destruct ab; cbn [fst snd].
   - split; [exact HS3|]. split; [constructor|]. split; [apply okv0|]. intros NC. rewrite (L1 eq_refl) in NC. discriminate NC.
   - destruct (L2 eq_refl) as (V & H1 & H2).
